@@ -6,10 +6,11 @@ import Driver.SubgraphSearch
 import Driver.GraphMatcherEngine
 import Driver.Petri
 import Driver.Deficiency
+import Driver.Views
 open Lean
 
 /-- All command handlers; the first one that knows the command answers. -/
-def handlers : List Driver.Handler := [Driver.Store.handle, Driver.Match.handle, Driver.ITS.handle, Driver.SubgraphSearch.handle, Driver.GME.handle, Driver.Petri.handle, Driver.Deficiency.handle]
+def handlers : List Driver.Handler := [Driver.Store.handle, Driver.Match.handle, Driver.ITS.handle, Driver.SubgraphSearch.handle, Driver.GME.handle, Driver.Petri.handle, Driver.Deficiency.handle, Driver.Views.handle]
 
 def dispatch (line : String) : Json :=
   match Json.parse line with
